@@ -47,7 +47,7 @@ BuildCalls(r, h) ==
                                                     /\ ~(o.o = "calc" /\ "d" \in Cols(r))}}
       \cup {[f |-> "xfer", dest |-> e] : e \in Engines \ {Eng(r)}}
       \cup (IF NMats(h) < 2 THEN {[f |-> "mat", name |-> MatName(h)]} ELSE {})
-      \cup (IF Cols(r) = {"a", "b"} THEN {[f |-> "chainz"]} ELSE {})
+      \cup (IF Cols(r) = {"a", "b"} THEN {[f |-> "chainz"], [f |-> "chainzl"]} ELSE {})
       \cup (IF Len(h) >= 1 THEN {[f |-> "chainself"]} ELSE {})
 
 CallResult(c, r) ==
@@ -55,6 +55,7 @@ CallResult(c, r) ==
       [] c.f = "xfer" -> TransferTo(r, c.dest)
       [] c.f = "mat"  -> Materialize(r, c.name)
       [] c.f = "chainz" -> ApplyBinary(ChainOp, r, IF KindOf(Eng(r)) = "sql" THEN PlainSel(LeafZ(Eng(r))) ELSE LeafZ(Eng(r)))
+      [] c.f = "chainzl" -> ApplyBinary(ChainOp, IF KindOf(Eng(r)) = "sql" THEN PlainSel(LeafZ(Eng(r))) ELSE LeafZ(Eng(r)), r)
       [] c.f = "chainself" -> ApplyBinary(ChainOp, r, r)
 
 CallRows(c, rows) ==
